@@ -662,6 +662,48 @@ derive
 /*@ type src/parser/mod.rs BlockKind
 derive Clone, PartialEq, Structural
 @*/
+/// the source range reported by an event, if it carries one
+pub open spec fn ev_range<'i>(ev: Event<'i>) -> Option<(int, int)> {
+    match ev {
+        Event::Text(t) => Some((t.start_spec(), t.end_spec())),
+        Event::Ingredient(l) => Some((l.sp().s(), l.sp().e())),
+        Event::Cookware(l) => Some((l.sp().s(), l.sp().e())),
+        Event::Timer(l) => Some((l.sp().s(), l.sp().e())),
+        _ => None,
+    }
+}
+/// C04: from index `from` on, the located events lie in source order without overlapping, between `lo` and `hi`
+pub open spec fn ev_ordered<'i>(evs: Seq<Event<'i>>, from: int, lo: int, hi: int) -> bool {
+    &&& forall|k: int| from <= k < evs.len() && ev_range(#[trigger] evs[k]).is_some() ==> lo <= ev_range(evs[k]).unwrap().0 <= ev_range(evs[k]).unwrap().1 <= hi
+    &&& forall|k1: int, k2: int| from <= k1 < k2 < evs.len() && ev_range(#[trigger] evs[k1]).is_some() && ev_range(#[trigger] evs[k2]).is_some()
+            ==> ev_range(evs[k1]).unwrap().1 <= ev_range(evs[k2]).unwrap().0
+}
+pub proof fn lemma_ordered_grown<'i>(old_e: Seq<Event<'i>>, new_e: Seq<Event<'i>>, from: int, lo: int, hi: int)
+    requires ev_ordered(old_e, from, lo, hi), only_diags(new_e, old_e), 0 <= from <= old_e.len()
+    ensures ev_ordered(new_e, from, lo, hi)
+{
+    assert forall|k: int| from <= k < new_e.len() && ev_range(#[trigger] new_e[k]).is_some() implies k < old_e.len() && new_e[k] == old_e[k] by {
+        if k >= old_e.len() { assert(new_e[k] is Error || new_e[k] is Warning); }
+        else { assert(new_e.subrange(0, old_e.len() as int)[k] == new_e[k]); }
+    }
+}
+pub proof fn lemma_ordered_weaken<'i>(evs: Seq<Event<'i>>, from: int, lo: int, hi: int, hi2: int)
+    requires ev_ordered(evs, from, lo, hi), hi <= hi2 ensures ev_ordered(evs, from, lo, hi2) {}
+pub proof fn lemma_ordered_push<'i>(evs: Seq<Event<'i>>, e: Event<'i>, from: int, lo: int, hi: int, hi2: int)
+    requires ev_ordered(evs, from, lo, hi), hi <= hi2, 0 <= from <= evs.len(),
+        ev_range(e).is_some() ==> hi <= ev_range(e).unwrap().0 <= ev_range(e).unwrap().1 <= hi2 && lo <= hi,
+    ensures ev_ordered(evs.push(e), from, lo, hi2)
+{
+    let n = evs.push(e);
+    assert forall|k: int| from <= k < n.len() && ev_range(#[trigger] n[k]).is_some() implies lo <= ev_range(n[k]).unwrap().0 <= ev_range(n[k]).unwrap().1 <= hi2 by {
+        if k < evs.len() { assert(n[k] == evs[k]); }
+    }
+    assert forall|k1: int, k2: int| from <= k1 < k2 < n.len() && ev_range(#[trigger] n[k1]).is_some() && ev_range(#[trigger] n[k2]).is_some()
+        implies ev_range(n[k1]).unwrap().1 <= ev_range(n[k2]).unwrap().0 by {
+        assert(n[k1] == evs[k1]);
+        if k2 < evs.len() { assert(n[k2] == evs[k2]); }
+    }
+}
 /// C05: the span reported by event `ev` includes the bytes [a, b)
 pub open spec fn ev_covers<'i>(ev: Event<'i>, a: int, b: int) -> bool {
     match ev {
@@ -2022,14 +2064,18 @@ spec:
         ev_grown(final(bp).evs(), old(bp).evs()),
         // [C05] every token that can hold a letter or digit lies in the span of an event emitted by this call
         covered(final(bp).toks(), final(bp).toks().len() as int, final(bp).evs(), old(bp).evs().len() as int),    // [C05]
+        // [C04] the located events of the step appear in source order, without overlapping, inside the block
+        ev_ordered(final(bp).evs(), old(bp).evs().len() as int, final(bp).toks()[0].span.s(), final(bp).toks().last().span.e()),    // [C04]
 enter:
     hide(toks_ok);
 after `bp.event(Event::Start(BlockKind::Step));`:
     proof { lemma_grown_push(old(bp).evs(), Event::Start(BlockKind::Step)); }
     let ghost n0 = old(bp).evs().len() as int;
+    proof { assert(ev_ordered(bp.evs(), n0, bp.toks()[0].span.s(), bp.off())) by { assert(bp.evs()[n0] == Event::Start(BlockKind::Step)); } }
 loop 0:
         invariant bp.wf(), bp.same(old(bp)), ev_grown(bp.evs(), old(bp).evs()), n0 == old(bp).evs().len(), n0 < bp.evs().len(),
             covered(bp.toks(), bp.cur(), bp.evs(), n0),     // [C05]
+            ev_ordered(bp.evs(), n0, bp.toks()[0].span.s(), bp.off()),     // [C04]
         decreases bp.toks().len() - bp.cur()
 before `let component = match bp.peek() {`:
         let ghost pre = *bp;
@@ -2040,6 +2086,7 @@ before `if let Some(ev) = component {`:
             assert(only_diags(bp.evs(), pre.evs()));
             lemma_grown_trans(bp.evs(), pre.evs(), old(bp).evs());
             lemma_covered_grown(bp.toks(), pre.cur(), pre.evs(), bp.evs(), n0);
+            lemma_ordered_grown(pre.evs(), bp.evs(), n0, bp.toks()[0].span.s(), pre.off());
         }
         let ghost mid = *bp;
 after `bp.event(ev)`:
@@ -2057,6 +2104,8 @@ after `bp.event(ev)`:
                     }
                 }
                 assert(covered(bp.toks(), bp.cur(), bp.evs(), n0));
+                lemma_off_mono(bp.toks(), 0, pre.cur()); lemma_off_mono(bp.toks(), pre.cur(), bp.cur());
+                lemma_ordered_push(mid.evs(), ev, n0, bp.toks()[0].span.s(), pre.off(), bp.off());
             }
 before `let tokens = bp.capture_slice(|bp| {`:
             let ghost pre2 = *bp;
@@ -2090,6 +2139,17 @@ after `bp.event(Event::Text(text));<NL>            }`:
                     }
                 }
                 assert(covered(bp.toks(), bp.cur(), bp.evs(), n0));
+                lemma_off_mono(bp.toks(), 0, pre.cur()); lemma_off_mono(bp.toks(), pre.cur(), bp.cur());
+                lemma_tok(bp.toks(), pre.cur()); lemma_tok(bp.toks(), bp.cur() - 1);
+                assert(tokens@[0] == bp.toks()[pre.cur()]); assert(tokens@.last() == bp.toks()[bp.cur() - 1]);
+                if bp.evs().len() > mid2.evs().len() {
+                    lemma_ordered_push(mid2.evs(), Event::Text(text), n0, bp.toks()[0].span.s(), pre.off(), bp.off());
+                } else {
+                    lemma_grown_refl(mid2.evs());
+                    assert(ev_ordered(bp.evs(), n0, bp.toks()[0].span.s(), bp.off())) by {
+                        lemma_ordered_weaken(mid2.evs(), n0, bp.toks()[0].span.s(), pre.off(), bp.off());
+                    }
+                }
             }
 before `bp.event(Event::End(BlockKind::Step));`:
     let ghost fin = *bp;
@@ -2098,6 +2158,8 @@ after `bp.event(Event::End(BlockKind::Step));`:
         lemma_grown_push(fin.evs(), Event::End(BlockKind::Step));
         lemma_grown_trans(bp.evs(), fin.evs(), old(bp).evs());
         lemma_covered_grown(bp.toks(), fin.cur(), fin.evs(), bp.evs(), n0);
+        lemma_ordered_push(fin.evs(), Event::End(BlockKind::Step), n0, bp.toks()[0].span.s(), fin.off(), fin.off());
+        lemma_off_mono(bp.toks(), 0, bp.cur());
     }
 @*/
 } // verus!
